@@ -205,7 +205,7 @@ def du3_sum_table(ctx, b):
 
     n = 0
     bad = {}
-    for size in (2, 3, 4):
+    for size in ((2, 3, 4, 5, 6, 7) if (ctx.tier == 'thorough' and ctx.cfg_name == 'dev') else (2, 3, 4)):
         for present in itertools.product((1, 0), repeat=size):
             n += 1
             try:
@@ -221,7 +221,7 @@ def du3_sum_table(ctx, b):
         ctx.finding('DU3', 'combine_durations/%s' % which, 'with %d captured fields (%s) combine_durations returns %s; expected %s - %d of %d cases differ' % (
             len(present), ', '.join('a duration' if p_ else 'not a duration' for p_ in present), got, want, len(rows), n), site=b.loc)
     if not bad:
-        ctx.ok('DU3', 'combine_durations: the sum of all captured durations (2..4 fields), Err when a field holds none - %d cases walked' % n, 'absint', site=b.loc)
+        ctx.ok('DU3', 'combine_durations: the sum of all captured durations (2..%d fields), Err when a field holds none - %d cases walked' % (size, n), 'absint', site=b.loc)
 
 
 def du3_additivity(ctx):
@@ -581,11 +581,12 @@ def du5_selection_table(ctx):
     kinds = [(s_, c) for s_ in (1, 0) for c in 'ENG']
     n = 0
     bad = {}
-    for size in range(0, 4):
+    deep = ctx.tier == 'thorough' and ctx.cfg_name == 'dev'
+    for size in range(0, 5 if deep else 4):
         for entries in itertools.product(kinds, repeat=size):
             if sum(1 for e in entries if e == (1, 'E')) > 1 or sum(1 for e in entries if e == (1, 'G')) > 1:
                 continue                         # two entries of the same unit and count class: the statement does not say which
-            for duration in (1, 7):
+            for duration in ((0, 1, 2, 7, -3) if deep and size <= 3 else (1, 7)):
                 n += 1
                 try:
                     got, want, which = walk(entries, duration)
